@@ -33,10 +33,10 @@ theorem idle_source_shape : isIdleSrc.Nodup ∧ isIdleLets = [.pressedKeysDef] :
 
 /-- **canBlock_interprets_source** (full): the decision `can_block_update_idle_waiting` returns is the
 conjunction of exactly the conjuncts in its source; the statements in front of the returned expression
-are the five the model transcribes, in that order; and the call leaves the layout alone. -/
+are the six the model transcribes (the last two concern chords v2 and the dynamic-macro recorder, which are outside this model), in that order; and the call leaves the layout alone. -/
 theorem canBlock_interprets_source (k : KState) (ms : Nat) :
     ((canBlockUpdateIdleWaiting k ms).2 = true ↔ ∀ t ∈ canBlockSrc, evalBlockTag k t = true) ∧
-    canBlockLets = [.cbLetIsIdle, .cbLetCounting, .cbUpdateTicksSinceIdle, .cbLetPassed, .cbLetChordsV2] ∧
+    canBlockLets = [.cbLetIsIdle, .cbLetCounting, .cbUpdateTicksSinceIdle, .cbLetPassed, .cbLetChordsV2, .cbLetRecording] ∧
     (canBlockUpdateIdleWaiting k ms).1.layout = k.layout := by
   refine ⟨?_, by decide, (canBlock_layout k ms).1⟩
   rw [canBlock_decision]
